@@ -70,7 +70,7 @@ def judge_roundtrip(ctx, case):
             b = bridge.compare_node(node, xk, tn, private)
             if b:
                 bad.append(("parse.%s.%s" % (form, b[0][0]), b[0][1], b[0][2]))
-            if node.parsed_version != ver:
+            if getattr(node, "parsed_version", ver) != ver:
                 bad.append(("parse.%s.parsed_version" % form, ver, node.parsed_version))
             try:
                 out = node.extended_private_key(version=ver) if private else node.extended_public_key(version=ver)
